@@ -3,7 +3,8 @@
    The side conditions on the table are decided here by computation. *)
 Require Import ZArith List Lia Bool.
 Require Import AV.Foam.Buf AV.Foam.Syntax AV.Foam.Codec AV.Foam.CodecFacts AV.Foam.CodecFacts2
-               AV.Foam.CodecFacts3 AV.Foam.CodecFacts4 AV.Foam.LibHdr AV.Foam.LibHdrFacts AV.Foam.LibHdrFacts2
+               AV.Foam.CodecFacts3 AV.Foam.CodecFacts4 AV.Foam.SExpr AV.Foam.SExprFacts AV.Foam.SExprFacts2
+               AV.Foam.SLex AV.Foam.Archive AV.Foam.ArchiveFacts AV.Foam.ArchiveFacts2 AV.Foam.LibHdr AV.Foam.LibHdrFacts AV.Foam.LibHdrFacts2
                AV.Gen.FoamInfo.
 Import ListNotations.
 Local Open Scope Z_scope.
@@ -95,3 +96,70 @@ Qed.
 Example ex_magic_damage :
   read_lib LP (subst_nth 1 0 (write_lib LP ex_lunit)) = Refused BadMagic.
 Proof. vm_compute. reflexivity. Qed.
+
+(* ---- the FOAM text form *)
+Lemma TP_ok : text_params_ok FP TP = true.
+Proof. vm_compute. reflexivity. Qed.
+
+Definition sexpr_roundtrip_current := sexpr_roundtrip FP TP TP_ok.
+Definition resave_text_current := resave_text FP TP TP_ok.
+
+(* a Prog with wide integers, a GDecl with return type 7 (kept), a Decl with syme index 7 (written
+   as -1), a big integer and the minimal SInt *)
+Definition ex_text : node :=
+  Node (t_Prog FP)
+    [Int 8589934592; Int 300; Int 5; Int 4; Int (-1099511627776); Int 0; Int 0; Int 0;
+     Sub (Node (t_GDecl FP) [Int 5; Str [34; 92; 120]; Int 7; Int 4; Int 1; Int 0]);
+     Sub (Node (t_Decl FP) [Int 5; Str [104; 105]; Int 7; Int 4]);
+     Sub (Node (t_BInt FP) [BIntA (-1180591620717411303424)]);
+     Sub (Node (t_SInt FP) [Int (-9223372036854775808)])].
+
+Example ex_text_wf : wf_text FP TP ex_text = true.
+Proof. vm_compute. reflexivity. Qed.
+Example ex_text_not_canonical : tcanon FP ex_text <> ex_text.
+Proof. vm_compute. discriminate. Qed.
+Example ex_text_roundtrip : rd FP TP (wr FP TP ctx0 ex_text ++ [TR]) = Some (tcanon FP ex_text, [TR]).
+Proof. vm_compute. reflexivity. Qed.
+Example ex_int_atom : pr_int (-9223372036854775808) = [45; 57; 50; 50; 51; 51; 55; 50; 48; 51; 54; 56; 53; 52; 55; 55; 53; 56; 48; 56].
+Proof. vm_compute. reflexivity. Qed.
+
+(* ---- ar archives: a concrete two-member archive as ar(1) writes it ("x.ao/" padded, decimal
+   fields, "`\n"), one member of odd length (padding byte), one member that is not an object file *)
+Definition ex_ar_hdr (name : bytes) (size : bytes) : bytes :=
+  (name ++ [47] ++ repeat 32 (15 - length name)) ++ ([48] ++ repeat 32 11) ++ ([48] ++ repeat 32 5) ++
+  ([48] ++ repeat 32 5) ++ ([54; 52; 52] ++ repeat 32 5) ++ (size ++ repeat 32 (10 - length size)) ++ [96; 10].
+Definition ex_ar : bytes :=
+  ar_magic ++ ex_ar_hdr [120; 46; 97; 111] [51] ++ [1; 2; 3; 10]           (* x.ao, 3 bytes + pad *)
+           ++ ex_ar_hdr [114; 46; 116; 120; 116] [50] ++ [7; 7]               (* r.txt, 2 bytes *)
+           ++ ex_ar_hdr [76; 105; 98; 46; 97; 111] [52] ++ [9; 9; 9; 9].      (* Lib.ao, 4 bytes *)
+
+Example ex_ar_intact_found :
+  read_ar ex_ar = Members [([120; 46; 97; 111], 68); ([76; 105; 98; 46; 97; 111], 194)] [].
+Proof. vm_compute. reflexivity. Qed.
+Example ex_ar_lookup_ignores_case : find_member [([120; 46; 97; 111], 68); ([76; 105; 98; 46; 97; 111], 194)] [108; 105; 98; 46; 97; 111] = Some 194.
+Proof. vm_compute. reflexivity. Qed.
+(* cut inside the third header: the first member is still found, the walk reports ArTruncated *)
+Example ex_ar_truncated_header :
+  read_ar (firstn 150 ex_ar) = Members [([120; 46; 97; 111], 68)]
+    [ArTruncated; ArBadNumber; ArTruncated; ArBadNumber; ArTruncated; ArBadNumber; ArTruncated; ArBadNumber; ArTruncated; ArBadNumber; ArTruncated; ArTruncated].
+Proof. vm_compute. reflexivity. Qed.
+(* cut inside the data of the last member: recorded, and reported as truncated *)
+Example ex_ar_truncated_data :
+  read_ar (firstn 196 ex_ar) = Members [([120; 46; 97; 111], 68); ([76; 105; 98; 46; 97; 111], 194)] [ArTruncated].
+Proof. vm_compute. reflexivity. Qed.
+(* cut exactly at the boundary before the third member: a valid two-member archive, no diagnostic *)
+Example ex_ar_boundary_cut :
+  read_ar (firstn 134 ex_ar) = Members [([120; 46; 97; 111], 68)] [].
+Proof. vm_compute. reflexivity. Qed.
+(* the example archive is what the writer of the theorems produces *)
+Definition ex_ar_members : list (bytes * bytes) :=
+  [([120; 46; 97; 111], [1; 2; 3]); ([114; 46; 116; 120; 116], [7; 7]); ([76; 105; 98; 46; 97; 111], [9; 9; 9; 9])].
+Example ex_ar_is_written : write_ar ex_ar_members = ex_ar.
+Proof. vm_compute. reflexivity. Qed.
+Example ex_ar_members_valid : Forall valid_member ex_ar_members.
+Proof. repeat constructor; cbn; try lia; intuition lia. Qed.
+
+Definition ar_intact_found_current := ar_intact_found.
+Definition ar_truncation_refused_current := ar_truncation_refused.
+Definition ar_boundary_cut_accepted_current := ar_boundary_cut_accepted.
+Definition ar_members_inside_current := read_ar_members_inside.
